@@ -95,6 +95,9 @@ def reference(hist):
             st = RefState(w[1], int(w[3]))
             out.append(st.line("unit"))
             continue
+        if op == "wb":
+            out.append("*")          # white-box line: compared between implementation and model only
+            continue
         if op == "hashstr":
             bs = [] if w[1] == "-" else [int(w[1][i:i + 2], 16) for i in range(0, len(w[1]), 2)]
             out.append(f"num {hash_string_ref(bs)}")
@@ -162,6 +165,13 @@ def reference(hist):
     return out
 
 
+def ref_eq(impl, ref):
+    return ref == "*" and impl.startswith("wb ") or impl == ref
+
+
+reference.eq = ref_eq
+
+
 # ---- generators -----------------------------------------------------------------------------------
 CAPS = [0, 1, 2, 3, 8, 500]
 MODES = [0, 1, 2, 3, 4]
@@ -218,6 +228,8 @@ def gen_history(rng, length, kind=None):
             op = "hashstr " + ("".join(f"{rng.randrange(256):02x}" for _ in range(rng.choice([0, 1, 2, 3, 5, 8]))) or "-")
         size[t] = min(size[t], dom + 3)
         h.append(op)
+        if rng.random() < 0.12:
+            h.append(f"wb {rng.randrange(2)}")
     return h
 
 
@@ -251,7 +263,7 @@ def exhaustive(depth, rng=None, limit=None):
             pre += ["append 0 1 11", "append 1 1 11", "append 1 2 12"]
             for d in range(1, depth + 1):
                 for p in itertools.product(al, repeat=d):
-                    hs.append(pre + list(p))
+                    hs.append(pre + list(p) + ["wb 0", "wb 1"])
     if limit and len(hs) > limit:
         rng.shuffle(hs)
         hs = hs[:limit]
@@ -261,7 +273,7 @@ def exhaustive(depth, rng=None, limit=None):
 def nontrivial(h, out):
     if len(h) < 4 or not out or out[-1] == "bad-op":
         return None
-    return (h[0].split()[1], frozenset(l.split()[0] for l in h), out[-1])
+    return (h[0].split()[1], frozenset(l.split()[0] for l in h), tuple(out[-3:]))
 
 
 def histories_for(ctx):
@@ -276,7 +288,8 @@ def histories_for(ctx):
                        f"all op sequences of length <= {depth} over the container's op alphabet ({', '.join(str(len(alphabet(k))) for k in KINDS)} ops; keys 0..3, two tables) "
                        f"after a 3-insert prefix ({len(ex)} histories) + {len(rnd)} random histories of 5..80 ops over 2 tables, capacities {CAPS}, hash modes "
                        "identity/constant/mod 2/complement/halving, key domains 3..8; every op line prints size, isEmpty, iteration, find of every key, contains, front/back, "
-                       "== in both directions, returned iterator position, backward traversal and white-box chain consistency flags; "
+                       "== in both directions, returned iterator position, backward traversal and white-box chain consistency flags; `wb` lines (end of every enumerated history, 12% of "
+                       "the random ops) compare capacity, block count, every bucket chain, the free list and the order list as canonical item ids (4*block+slot) with the model's stored data; "
                        "distinct_nontrivial = distinct (container, op-kind set, final observation)")
     ctx.cov["exhaustive"] = False
     ctx.cov["exhaustive_scope"] = f"length<={depth} over the per-container alphabets x {len(EX_CONFIGS)} configurations: {len(ex)} histories"
